@@ -22,6 +22,10 @@ CLAIMED = {
          "Lean proof of residue independence + residue-differential on the real code"),
  "C13": ("proof", "Lean theorems (Props/C13.lean) over a model of handshake_login's sscanf format, glibc inet_pton4, tun_setip and tun_setmtu: for EVERY reply byte string every command handed to system() is the fixed prefix + local device + dotted quad twice + netmask quad, or + ' mtu ' + decimal 201..1500 (DottedQuad proved equivalent to the inet_pton4 model; device names up to 430 bytes, bound sharp). Correspondence: the real handshake_login/tun_setip/tun_setmtu with system() captured (h_cli) vs the model on ~1200 hostile replies x 14 (type, codec) combinations; oracle: regex from the property text on every captured command; stale-reply differential",
          "Lean proof over all reply bytes (libc scanf/inet_pton models trusted, exercised differentially)"),
+ "C10": ("proof", "Lean theorems (Props/C10.lean, 39): for every id, legal question name, type, payload and sufficient buffer, dns_encode's query (with/without EDNS0 OPT) and every answer form (NULL/PRIVATE, TXT tiled by <=252-byte strings, CNAME incl. A questions, MX/SRV with preferences 10,20,.. and SRV weight/port), the NS response (ns.<domain> through a pointer proved to land on a label boundary, optional A glue) and the A response parse under an independent strict RFC 1035 parser written in Lean, with id/name/type echoed and every answer owned by the question name. Correspondence: putname/puttxtbin/dns_encode*/ of the current tree vs the model byte for byte incl. tight buffers; oracle: every datagram emitted by the real server loop, write_dns and the real client builders is parsed by the Lean strict parser (the specification) and by an independent Python one, and compared with the query it answers",
+         "Lean proof against an independent strict parser + differential + strict parsing of everything the real code emits"),
+ "C16": ("proof", "Lean theorems (Props/C16.lean, 43) over the server session model: a re-delivered ping/data query that hits the answer cache, the query memory or a pending query is a stutter step of the handler (whole state unchanged resp. only id2/from2 noted; exactly one replay / 'x' / no event; no tun write), the cache ring holds exactly the last four fresh answers since the last V/N with their payloads (invariant over all runs), the query memories hold the last 15 data / 30 ping fingerprints, any number of such repeats in any order leaves every stream unchanged; hits do not depend on DNS id, port or (without -c) address, fingerprints are case-insensitive. Correspondence: the real tunnel() loop (h_srv, ASan+UBSan) vs the model on generated sessions, every event and the full slot digest; oracle: C16 monitor on the implementation's trace (cache window, query memory, pending duplicates)",
+         "Lean invariant proof over all runs of the session model + differential against the real loop + trace monitor"),
 }
 TODO = "check not built yet in this session (planned per DESIGN.md §8); not claimed until its check exists"
 m = {"version": 1, "setup_cmd": "./setup.sh",
